@@ -71,7 +71,7 @@ Fixpoint ranges_first (rs : ranges) : ranges :=
 (** headerRange.rangeAmount(end), uint64 arithmetic *)
 Definition range_amount (start len e : N) : N :=
   if e <? start then 0
-  else if e <=? wrap64 (start + len) then wrap64 (sub64 e start + 1)
+  else if e <? wrap64 (start + len) then wrap64 (sub64 e start + 1)   (* r.start+amnt > end *)
   else len.
 
 (** headerRange.Get(end) *)
@@ -86,6 +86,17 @@ Definition range_remove (e : N) (r : hrange) : option hrange :=
     let rest := skipn (N.to_nat a) (r_hdrs r) in
     Some (HRange rest (match rest with [] => r_start r | h :: _ => h_height h end))
   else None.
+
+(** ranges.RemoveUpTo(height): Remove(height) on every range, under the ranges lock *)
+Fixpoint ranges_remove_upto (e : N) (rs : ranges) : option ranges :=
+  match rs with
+  | [] => Some []
+  | r :: t =>
+    match range_remove e r, ranges_remove_upto e t with
+    | Some r', Some t' => Some (r' :: t')
+    | _, _ => None
+    end
+  end.
 
 (** all headers held, in order *)
 Definition ranges_all (rs : ranges) : list hdr := flat_map r_hdrs rs.
